@@ -35,6 +35,12 @@ def check(prog, rep, tier):
                       'when it is shorter; no other counter moves')
     rep.rule('R18.c', 'who-may-write: the two counter dictionaries are written only by the BGP protocol '
                       'methods; the REST statistic view returns the dictionaries of the tracked protocol')
+    rep.rule('R18.e', 'counted implies written: the Data argument of every send_notification call in the reaction table '
+                      'is a byte string, so the constructor cannot raise between the counter increment and the write')
+    rep.rule('R18.f', 'received UPDATEs are counted: the per-family bookkeeping that _update_received runs before the '
+                      'counter increment cannot raise on a decoded flowspec route - where its family test is live (same '
+                      'sequence kind as the decoder yields) the integer component keys are not concatenated to text '
+                      'without str()')
     rep.rule('R18.d', 'on every path of every event (timers, operator, connection, wire) sent counters move '
                       'by exactly the number of messages written, per type')
     rep.assumptions += ['counts inside abstracted loops (internal queue drain in _keepalive_received) are seen for one iteration']
@@ -96,6 +102,16 @@ def check(prog, rep, tier):
                     expected="msg_sent_stat['%s'] += 1 per message written" % key, key=nm)
         else:
             rep.ok('R18.a', nm, file=f.file, line=f.node.lineno, found='%d path(s)' % npaths)
+
+    # the NOTIFICATION counter moves before the message is built: the count equals the writes only when the
+    # constructor cannot raise in between, i.e. when the Data handed over is a byte string at every call
+    from .c10 import notification_data_rule
+    notification_data_rule(tab, rep, 'R18.e', consequence='send_notification has already counted the NOTIFICATION when '
+                           'Notification.construct raises TypeError on it, so a message is counted that never reaches '
+                           'the wire')
+
+    # ---------------------------------------------------------------- R18.f
+    receive_bookkeeping_cannot_raise(prog, rep, bgp)
 
     # ---------------------------------------------------------------- R18.b / R18.d on the table
     seen = {}
@@ -262,3 +278,97 @@ def is_first_unpack_short(r, cls):
         if fq and fq.endswith(fn):
             return False
     return True
+
+
+def receive_bookkeeping_cannot_raise(prog, rep, bgp):
+    ur = bgp.find_method('_update_received')
+    f = bgp.find_method('update_receive_verion')
+    if ur is None or f is None:
+        rep.undecided('R18.f', 'receive-bookkeeping', found='_update_received / update_receive_verion not found')
+        return
+    # is the bookkeeping called before the increment at all?
+    call_line = inc_line = None
+    for n in ast.walk(ur.node):
+        if isinstance(n, ast.Call) and src_of(n.func) == 'self.update_receive_verion':
+            call_line = n.lineno
+        if isinstance(n, ast.AugAssign) and src_of(n.target) == "self.msg_recv_stat['Updates']":
+            inc_line = max(inc_line or 0, n.lineno)
+    if call_line is None:
+        rep.ok('R18.f', 'receive-bookkeeping', file=ur.file, line=ur.node.lineno, nontrivial=False,
+               found='_update_received does not call the bookkeeping')
+        return
+    guarded = False
+    par = {c: p for p in ast.walk(ur.node) for c in ast.iter_child_nodes(p)}
+    for n in ast.walk(ur.node):
+        if isinstance(n, ast.Call) and src_of(n.func) == 'self.update_receive_verion':
+            cur = n
+            while cur in par:
+                cur = par[cur]
+                if isinstance(cur, ast.Try) and any(h.type is None or src_of(h.type).split('.')[-1] in
+                                                    ('Exception', 'BaseException', 'TypeError') for h in cur.handlers):
+                    guarded = True
+    # what the decoders yield
+    kinds = set()
+    for q in ('yabgp.message.attribute.mpreachnlri.MpReachNLRI.parse',
+              'yabgp.message.attribute.mpunreachnlri.MpUnReachNLRI.parse'):
+        for n in ast.walk(prog.func(q).node):
+            if isinstance(n, ast.Call) and src_of(n.func) == 'dict':
+                kinds |= {type(k.value).__name__ for k in n.keywords if k.arg == 'afi_safi'}
+            if isinstance(n, ast.Dict):
+                kinds |= {type(v).__name__ for k, v in zip(n.keys, n.values)
+                          if isinstance(k, ast.Constant) and k.value == 'afi_safi'}
+    fsp = prog.func('yabgp.message.attribute.nlri.ipv4_flowspec.IPv4FlowSpec.parse')
+    int_keys = False
+    for n in ast.walk(fsp.node):
+        if isinstance(n, ast.Assign) and isinstance(n.targets[0], ast.Subscript) and isinstance(n.targets[0].slice, ast.Name):
+            kv = n.targets[0].slice.id
+            for m2 in ast.walk(fsp.node):
+                if isinstance(m2, ast.Assign) and any(isinstance(t, ast.Name) and t.id == kv for t in m2.targets) and \
+                        isinstance(m2.value, ast.Call) and src_of(m2.value.func) in ('ord', 'int'):
+                    int_keys = True
+    if not kinds:
+        raise AnalysisError('R18.f: no afi_safi producer found in the MP_REACH / MP_UNREACH decoders')
+    nsites = 0
+    for n in ast.walk(f.node):
+        if not (isinstance(n, ast.If) and isinstance(n.test, ast.Compare) and len(n.test.ops) == 1 and
+                isinstance(n.test.ops[0], ast.Eq) and src_of(n.test.left).endswith("['afi_safi']") and
+                isinstance(n.test.comparators[0], (ast.List, ast.Tuple))):
+            continue
+        lit = n.test.comparators[0]
+        try:
+            fam = tuple(prog.fold(lit, f.module, f.cls))
+        except Exception:
+            continue
+        if fam != (1, 133):
+            continue
+        nsites += 1
+        code = src_of(n.test.left).split('[')[1].rstrip(']')
+        key = 'flowspec-bookkeeping:%s' % code
+        live = type(lit).__name__ in kinds
+        bare = []
+        keyvars = set()
+        for b in n.body:
+            for x in ast.walk(b):
+                if isinstance(x, ast.For) and isinstance(x.target, ast.Name) and '.keys()' in src_of(x.iter):
+                    keyvars.add(x.target.id)
+        for b in n.body:
+            for x in ast.walk(b):
+                if isinstance(x, ast.BinOp) and isinstance(x.op, ast.Add):
+                    for a, o in ((x.left, x.right), (x.right, x.left)):
+                        if isinstance(a, ast.Name) and a.id in keyvars and \
+                                any(isinstance(c, ast.Constant) and isinstance(c.value, str) for c in ast.walk(o)):
+                            bare.append(x)
+        if not live:
+            rep.ok('R18.f', key, file=f.file, line=n.lineno, nontrivial=False,
+                   found='family test compares a %s with a %s literal: branch dead (C19 R19.d), nothing can raise' % (
+                       '/'.join(sorted(kinds)).lower(), type(lit).__name__.lower()))
+        elif bare and int_keys and not guarded:
+            rep.bad('R18.f', key, file=f.file, line=bare[0].lineno, func=f.qualname,
+                    found='the flowspec branch is live and builds its key with %s: the component keys of a decoded '
+                          'flowspec rule are integers, so TypeError escapes update_receive_verion before '
+                          "msg_recv_stat['Updates'] += 1 (line %s) and the catch-all of parse_buffer swallows it - the "
+                          'UPDATE is received but never counted' % (src_of(bare[0]), inc_line),
+                    expected='str(k), or count before the bookkeeping', key=key)
+        else:
+            rep.ok('R18.f', key, file=f.file, line=n.lineno, found='live branch, keys converted with str()')
+    rep.floor('R18.f', 'flowspec family tests in the receive bookkeeping', nsites, 2)
